@@ -484,6 +484,10 @@ class Body:
     def _mk_proj(self, base, elems):
         if not elems:
             return base
+        # the `?` operator: Option::branch(x) is Continue(v) exactly when x is Some(v) (Result: Ok(v))
+        if base[0] == "call" and base[1] in ("Option::branch", "Result::branch") and len(base[2]) == 1 and len(elems) >= 2 and elems[0] == "@Continue" and elems[1] == "0":
+            inner = "@Some" if base[1] == "Option::branch" else "@Ok"
+            return self._mk_proj(base[2][0], (inner, "0") + tuple(elems[2:]))
         if base[0] == "proj":
             return ("proj", base[1], tuple(base[2]) + tuple(elems))
         return ("proj", base, tuple(elems))
@@ -719,6 +723,30 @@ class Body:
             for y, _ in self.succ[x]:
                 if y not in seen:
                     dq.append((y, path + [y]))
+        return None
+
+    def reach_exit_avoiding_edges(self, blockers, blocked_edges):
+        """Is there a path from function entry to a Return that passes through no blocker location and takes no
+        blocked edge (bb, succ, label)?  Returns a witness block path or None."""
+        bl = {}
+        for l in blockers:
+            bl.setdefault(l.bb, []).append(l.idx)
+        be = set(blocked_edges)
+        seen = set()
+        dq = deque([(0, [0])])
+        while dq:
+            x, path = dq.popleft()
+            if x in seen:
+                continue
+            seen.add(x)
+            if x in bl:
+                continue
+            if self.is_return(x):
+                return path
+            for y, lab in self.succ[x]:
+                if (len(lab) > 1 and (x, y, lab[1]) in be) or y in seen:
+                    continue
+                dq.append((y, path + [y]))
         return None
 
     def reach_from_entry_avoiding(self, target, blockers):
@@ -1013,6 +1041,12 @@ def _unsigned(ty):
     return ty in ("u8", "u16", "u32", "u64", "u128", "usize")
 
 
+def b_mk_proj(base, elems):
+    if base[0] == "proj":
+        return ("proj", base[1], tuple(base[2]) + tuple(elems))
+    return ("proj", base, tuple(elems))
+
+
 class FactsAnalysis:
     """forward must-analysis over one body: at each block entry a set of alternative fact-sets"""
 
@@ -1086,6 +1120,20 @@ class FactsAnalysis:
                     l = ("eq(0,%s)" if truth else "ne(0,%s)") % ln
                 self.lit_places[l] = places_of(e[2][0])
                 return [l]
+            if name.endswith("::eq") and len(e[2]) == 2 and truth:
+                # `opt == Some(x)` establishes both that opt is Some and that its payload equals x
+                for o, sm in ((e[2][0], e[2][1]), (e[2][1], e[2][0])):
+                    if sm[0] == "agg" and sm[1] == "Some" and len(sm[2]) == 1 and o[0] != "agg":
+                        payload = b_mk_proj(o, ("@Some", "0"))
+                        l1 = "is(%s,Some)" % show(o)
+                        self.lit_places[l1] = places_of(o)
+                        sa, sb = show(payload), show(sm[2][0])
+                        if sb < sa:
+                            sa, sb = sb, sa
+                        l2 = "eq(%s,%s)" % (sa, sb)
+                        self.lit_places[l2] = places_of(o) | places_of(sm[2][0])
+                        self.lit_expr[l2] = ("eq", payload, sm[2][0])
+                        return [l1, l2]
             if name.endswith("::eq") and len(e[2]) == 2:
                 sa, sb = show(e[2][0]), show(e[2][1])
                 if sb < sa:
@@ -1119,7 +1167,23 @@ class FactsAnalysis:
             for tgt, lab in b.succ[bb]:
                 v = lab[1]
                 lits = []
-                if e[0] == "discr":
+                if e[0] == "discr" and e[1][0] == "call" and e[1][1] in ("Option::branch", "Result::branch") and len(e[1][2]) == 1:
+                    inner = e[1][2][0]
+                    yes, no = ("Some", "None") if e[1][1] == "Option::branch" else ("Ok", "Err")
+                    # ControlFlow: Continue = 0, Break = 1
+                    if v == "otherwise":
+                        tgt_name = None
+                        if vals == ["0"]:
+                            tgt_name = no
+                        elif vals == ["1"]:
+                            tgt_name = yes
+                    else:
+                        tgt_name = yes if v == "0" else (no if v == "1" else None)
+                    if tgt_name:
+                        l = "is(%s,%s)" % (show(inner), tgt_name)
+                        self.lit_places[l] = places_of(inner)
+                        lits.append(l)
+                elif e[0] == "discr":
                     pe = e[1]
                     pty = e[2] if len(e) > 2 else None
                     names = b.facts.variants_of(pty) if pty else None
@@ -1205,6 +1269,81 @@ class FactsAnalysis:
                             ks.extend(places_of(ae))
         return ks
 
+    def _block_gens(self, bb, upto=None):
+        """facts generated by the statements of block bb about multi-definition bool locals:
+        `v = true/false` gives the literal v / !v; `v = <comparison>` gives the binding `v<=>LIT`, which the
+        edges of a later `switch v` turn into LIT / not LIT.  (This is how rustc lowers `let ok = a == b && c == d;
+        if !ok { return }`: one path assigns the last comparison, all others assign `false`.)"""
+        b = self.b
+        gens = {}
+        for i, s in enumerate(b.stmts(bb)):
+            if upto is not None and i >= upto:
+                break
+            if s["k"] != "assign":
+                continue
+            pl = s["pl"]
+            if pl["p"]:
+                # a write to some place: drop bindings whose literal mentions it
+                ks = assigned_key(b.place_expr(pl))
+                for v in list(gens):
+                    for l in gens[v]:
+                        if any(places_overlap(k, p2) for k in ks for p2 in self.lit_places.get(l, ())):
+                            gens.pop(v, None)
+                            break
+                continue
+            n = pl["l"]
+            if b.is_single_def(n) or b.locals[n]["ty"] != "bool" or (1 <= n <= b.argc):
+                continue
+            name = "var%d" % n
+            try:
+                e = b.rvalue_expr(s["rv"])
+            except RecursionError:
+                gens.pop(name, None)
+                continue
+            if e[0] == "const" and str(e[1]) in ("true", "false"):
+                l = name if str(e[1]) == "true" else "!" + name
+                self.lit_places[l] = {name}
+                gens[name] = [l]
+            else:
+                lits = self.bool_lits(e, True)
+                if len(lits) == 1 and lits[0] != name and not lits[0].startswith("!"):
+                    bl = "%s<=>%s" % (name, lits[0])
+                    self.lit_places[bl] = set(self.lit_places.get(lits[0], ())) | {name}
+                    gens[name] = [bl]
+                else:
+                    gens.pop(name, None)
+        out = []
+        for v in gens:
+            out.extend(gens[v])
+        return out
+
+    @staticmethod
+    def _refine(alt):
+        """apply bindings and drop contradictory alternatives: returns the refined alternative or None"""
+        alt = set(alt)
+        changed = True
+        while changed:
+            changed = False
+            for l in list(alt):
+                if "<=>" in l:
+                    v, lit = l.split("<=>", 1)
+                    if v in alt and lit not in alt:
+                        alt.add(lit)
+                        changed = True
+                    elif ("!" + v) in alt:
+                        ng = lit_neg(lit)
+                        if ng not in alt:
+                            alt.add(ng)
+                            changed = True
+        for l in alt:
+            if "<=>" in l:
+                continue
+            if l.startswith("!") and l[1:] in alt:
+                return None
+            if l.startswith("eq(") and ("ne(" + l[3:]) in alt:
+                return None
+        return frozenset(alt)
+
     def _apply_kills(self, alts, kills):
         if not self.kill_fields:
             kills = [k for k in kills if re.fullmatch(r"(var|arg)\d+", k)]
@@ -1240,6 +1379,7 @@ class FactsAnalysis:
         b = self.b
         self.in_state = {}
         self.kills = {bb: self._block_kills(bb) for bb in b.reachable}
+        self.gens = {bb: self._block_gens(bb) for bb in b.reachable}
         self.in_state[0] = {frozenset()}
         work = deque([0])
         inq = {0}
@@ -1251,11 +1391,21 @@ class FactsAnalysis:
             if iters > 20000:
                 raise RuntimeError("facts analysis did not converge in " + b.path)
             out = self._apply_kills(self.in_state[x], self.kills[x])
+            if self.gens[x]:
+                out = {frozenset(alt | set(self.gens[x])) for alt in out}
             for y, lab in b.succ[x]:
                 e_l = self.edge_lits.get((x, y, lab[1]), []) if lab[0] == "sw" else []
                 new = set()
                 for alt in out:
-                    new.add(frozenset(alt | set(e_l)) if e_l else alt)
+                    if e_l:
+                        r = self._refine(alt | set(e_l))
+                        if r is not None:
+                            new.add(r)
+                    else:
+                        new.add(alt)
+                if not new and out:
+                    # every alternative contradicts this edge: the edge is infeasible
+                    continue
                 old = self.in_state.get(y)
                 if old is None:
                     merged = self._reduce(new)
@@ -1285,9 +1435,16 @@ class FactsAnalysis:
             if st is None:
                 continue
             st = self._apply_kills(st, self.kills[p])
+            if self.gens.get(p):
+                st = {frozenset(alt | set(self.gens[p])) for alt in st}
             e_l = self.edge_lits.get((p, L["header"], lab[1]), []) if lab[0] == "sw" else []
             for alt in st:
-                out.add(frozenset(alt | set(e_l)) if e_l else alt)
+                if e_l:
+                    r = self._refine(alt | set(e_l))
+                    if r is not None:
+                        out.add(r)
+                else:
+                    out.add(alt)
         return self._reduce(out) if out else None
 
     def at(self, loc):
@@ -1308,7 +1465,11 @@ class FactsAnalysis:
                     ks.extend(assigned_key(b.place_expr(pl)))
                 elif not b.is_single_def(pl["l"]):
                     ks.append("var%d" % pl["l"])
-        return self._apply_kills(st, ks)
+        st = self._apply_kills(st, ks)
+        g = self._block_gens(loc.bb, upto=max(loc.idx, 0))
+        if g:
+            st = {frozenset(alt | set(g)) for alt in st}
+        return st
 
 
 # implication closure ------------------------------------------------------------------------------
